@@ -3,7 +3,7 @@ constructors (which statements read / allocate / write the intern table and insi
 block), all `assert` statements and lru_cache'd functions of conversions.py.  Emits Coq text."""
 import ast, os, sys, json
 
-SRC = "/repo/src/measured"
+SRC = os.path.join(os.environ.get("VERIF_REPO", "/repo"), "src/measured")
 
 def kind_of(node):
     """classify one simple statement of __new__"""
